@@ -26,7 +26,7 @@ class _Table:
         idx = self.calls
         self.calls += 1
         if self.fault is not None and idx == self.fault:
-            raise self.B.classes["HarnessFault"]("injected fault")
+            raise self.B.classes[getattr(self, "fault_cls", "HarnessFault")]("injected fault")
         key = tuple(self.B.label_of(a) for a in args)
         if key in self.table:
             return self.table[key]
@@ -169,8 +169,9 @@ class NativeBackend(BackendBase):
     def mkdict(self, pairs):
         return {k: v for k, v in pairs}
 
-    def uf(self, name, domains, ret="bool", fault=False):
+    def uf(self, name, domains, ret="bool", fault=False, fault_cls="HarnessFault"):
         t = _Table(self, name, self._hole(name), ret)
+        t.fault_cls = fault_cls
         self.keep.append(t)
         self.labels[id(t)] = name
         self.objects[name] = t
